@@ -610,6 +610,22 @@ impl Hist {
         }
     }
 
+    /// Tells the wallet a chain tip exactly `delta` blocks above its highest scanned block (mining
+    /// what is missing first) and calls the monitors.
+    pub fn tell_tip_above_top(&mut self, delta: u32, mons: &mut [&mut dyn Monitor], r: &mut Reporter) {
+        let Some(&top) = self.w.scanned.keys().next_back() else { return };
+        let want = top + delta;
+        let tip = self.sim.tip_height();
+        if want > tip {
+            self.mine(want - tip);
+        }
+        self.tips_at_stability_edge += 1;
+        if let Err(e) = self.tip(want) {
+            self.aborted = Some(format!("update_chain_tip({want}) failed: {e}"));
+        }
+        self.call(mons, r);
+    }
+
     /// `rewind_to_chain_state` to the (unchanged) chain's state at `to`: the wallet forgets what it
     /// scanned above `to` as far down as its pruning floor and re-queues everything above `to`.
     pub fn rewind_to_state(&mut self, to: u32) -> bool {
